@@ -584,6 +584,38 @@ fn check_lookup(t: &mut Tally, recorded: &[String], path: &str, how: usize) {
     }
 }
 
+/// Lookups with names and paths that are not UTF-8 (bytes, not text): recorded through the API.
+fn check_lookup_bytes(t: &mut Tally, recorded: &[&[u8]], path: &[u8]) {
+    use std::os::unix::ffi::OsStrExt;
+    t.evals += 1;
+    t.validated += 1;
+    t.transitions += 1;
+    let comps: Vec<&[u8]> = path.split(|c| *c == b'/').filter(|c| !c.is_empty()).collect();
+    let mut want: Option<Vec<u8>> = None;
+    for k in 1..=comps.len() {
+        let suffix = comps[comps.len() - k..].join(&b'/');
+        if recorded.iter().any(|r| **r == suffix[..]) {
+            want = Some(suffix);
+            break;
+        }
+    }
+    let case = || json!({"recorded": recorded.iter().map(|r| bytes_json(r)).collect::<Vec<_>>(), "lookup": bytes_json(path)});
+    let r = guard(|| {
+        let mut d = Distinfo::new();
+        for (i, n) in recorded.iter().enumerate() {
+            d.insert(Entry::new(std::ffi::OsStr::from_bytes(n), "/nonexistent", vec![Checksum::new(Digest::SHA1, format!("{:040x}", i))], Some(i as u64)));
+        }
+        d.find_entry(std::path::Path::new(std::ffi::OsStr::from_bytes(path))).ok().map(|e| e.filename.as_os_str().as_bytes().to_vec())
+    });
+    match r {
+        Ok(got) if got == want => {
+            t.nontrivial += 1;
+            t.outcome(if want.is_some() { "lookup/bytes-found" } else { "lookup/bytes-not-found" });
+        }
+        other => t.violation(Violation::new("lookup-bytes", case(), json!(want.as_ref().map(|w| bytes_json(w))), json!(format!("{:?}", other)), "find_entry must return the entry of the shortest recorded trailing sub-path, whatever bytes the names are made of")),
+    }
+}
+
 fn replay(run: &Run, doc: &Value) -> Option<Violation> {
     let c = &doc["case"];
     let mut t = Tally::new();
@@ -591,6 +623,11 @@ fn replay(run: &Run, doc: &Value) -> Option<Violation> {
         Some("lookup") => {
             let rec: Vec<String> = c["recorded"].as_array().map(|a| a.iter().filter_map(|x| x.as_str().map(|s| s.to_string())).collect()).unwrap_or_default();
             check_lookup(&mut t, &rec, c["lookup"].as_str().unwrap_or(""), c["how"].as_u64().unwrap_or(0) as usize);
+        }
+        Some("lookup-bytes") => {
+            let rec: Vec<Vec<u8>> = c["recorded"].as_array().map(|a| a.iter().map(bytes_from_json).collect()).unwrap_or_default();
+            let refs: Vec<&[u8]> = rec.iter().map(|r| r.as_slice()).collect();
+            check_lookup_bytes(&mut t, &refs, &bytes_from_json(&c["lookup"]));
         }
         Some("history") => {
             // re-run the recorded history (a panic is a reproduction too)
@@ -739,6 +776,21 @@ fn main() {
             }
         }
     });
+    // names that are not UTF-8, as file names and as sub-directory components
+    {
+        let mut t = Tally::new();
+        let names: [&[u8]; 6] = [b"f\xff", b"d\xe9/f", b"e/d\xff/f\xfe", b"d\xe9/patch-a\xff", b"patch-\xe9", b"x/f\xff"];
+        let paths: [&[u8]; 8] = [b"/w/f\xff", b"/w/d\xe9/f", b"/w/e/d\xff/f\xfe", b"/w/q/d\xff/f\xfe", b"/w/d\xe9/patch-a\xff", b"/w/patch-\xe9", b"d\xe9/f", b"/w/x/f\xfe"];
+        for mask in 0u32..64 {
+            let rec: Vec<&[u8]> = names.iter().enumerate().filter(|(i, _)| mask >> i & 1 == 1).map(|(_, n)| *n).collect();
+            for p in paths {
+                t.states += 1;
+                check_lookup_bytes(&mut t, &rec, p);
+            }
+        }
+        run.bound("lookup with non-UTF-8 names: 64 subsets of 6 recorded names (bytes >= 0x80 in file names and in sub-directory components) x 8 lookup paths");
+        run.merge(t);
+    }
     // histories on ONE object: every sequence of <= 4 operations over {insert one of 4 names,
     // look up one of 3 paths}; after every operation each lookup path is resolved again and must
     // give the shortest recorded trailing sub-path of what has been inserted so far
